@@ -6,7 +6,7 @@ func init() {
 
 // C03: optimised and unoptimised evaluators are indistinguishable.
 func checkC03(c *Check) {
-	c.rule = "MC_Opt places 12 constant conditions (literals, folded comparisons, values around the inline-integer limit, truthy/falsy constants) as the condition of every condition-bearing construct, nested in / followed by / preceded by every construct of EFSyntax (37 kinds incl. returns in untaken branches, constant arithmetic statements, ternaries as operands and as conditions), with and without code in front; MC_Flow and the arithmetic groupings of MC_Expr are replayed as well; every program runs on an optimised and an unoptimised evaluator over a sequence of runs and must agree with EFSemantics and with each other on result, host calls and variables; distinct = distinct script text"
+	c.rule = "MC_Opt places 12 constant conditions (literals, folded comparisons, values around the inline-integer limit, truthy/falsy constants) as the condition of every condition-bearing construct, nested in / followed by / preceded by every construct of EFSyntax (37 kinds incl. returns in untaken branches, constant arithmetic statements, ternaries as operands and as conditions), with and without code in front; MC_Flow, the arithmetic groupings of MC_Expr, its fold family (6 arithmetic operators x 23 x 23 inline integer literals whose products and powers reach and wrap around 64 bits) and every cell and nesting with % or ** are replayed as well; every program runs on an optimised and an unoptimised evaluator over a sequence of runs and must agree with EFSemantics and with each other on result, host calls and variables; distinct = distinct script text"
 	c.assumptions = []string{
 		"the script-visible OPTIMIZE variable and the integer-typed folded square root are recorded known findings",
 	}
@@ -41,7 +41,12 @@ func checkC03(c *Check) {
 		for _, o := range ops {
 			switch o {
 			case "+", "-", "*", "/", "==", "!=", "sqrt":
-				return len(ops) >= 2
+				if len(ops) >= 2 {
+					return true
+				}
+			case "%", "**":
+				// (not folded today; an optimizer which starts to fold them must fold them to what the machine computes)
+				return true
 			}
 		}
 		return false
